@@ -272,6 +272,25 @@ let res_g (r : pres) : string =
   | PPanic -> "PANIC"
   | PFuel -> "FUEL"
 
+(* Model/Report.v rendered as Tracker::collect_to_message does (lines joined by ';') *)
+let report_text (t : tracker) : string =
+  let nm r = let s = rule_name r in if String.length s > 2 && String.sub s 0 2 = "r#" then String.sub s 2 (String.length s - 2) else s in
+  let lst l = "[" ^ String.concat ", " (List.map nm l) ^ "]" in
+  let spec = function
+    | SpEmptyStack -> "Nothing to pop or drop."
+    | SpOutOfBound (a, None) -> Printf.sprintf "Peek slice %d.. out of bound." (int_of_z a)
+    | SpOutOfBound (a, Some b) -> Printf.sprintf "Peek slice %d..%d out of bound." (int_of_z a) (int_of_z b) in
+  let line (l : rline) =
+    let head = match l.l_msg with
+      | MUnknown -> "Unknown error (no rule tracked)"
+      | MExpected ps -> "Expected " ^ lst ps
+      | MUnexpected ns -> "Unexpected " ^ lst ns
+      | MBoth (ns, ps) -> "Unexpected " ^ lst ns ^ ", expected " ^ lst ps in
+    let by = match l.l_by with Some u -> ", by " ^ nm u | None -> "" in
+    String.concat ";" ((head ^ by ^ ".") ::
+      List.map (fun sp -> spec sp ^ (match l.l_by with Some u -> " (By " ^ nm u ^ ")" | None -> "")) l.l_special) in
+  String.concat ";" (List.map line (report t))
+
 let res_c (start : nat) (r : nat res) : string =
   match r with
   | Ok (off, st) -> Printf.sprintf "ok@%d;S:%s;T:%s" (int_of_nat off) (stack_dbg st.stk) (tracker_dbg start st)
@@ -315,10 +334,13 @@ let run_input form hex a b =
           | Ok (_, st) -> Printf.sprintf "ok;T:%s" (tracker_dbg start st)
           | Fail st -> Printf.sprintf "fail;T:%s" (tracker_dbg start st)
           | Panic -> "PANIC" | Fuel -> "FUEL" in
+        let rp = match fp with
+          | Fail st -> report_text (run_tracker start st.tr)
+          | _ -> "-" in
         let ar = aparse e fuel true (TRule (r, SkOn)) start [] in
         let g = if !have_ast && idx <> !cur_eoi then "|G:" ^ res_g (peg_entry (mk_penv i) fuel r) else "" in
-        Printf.printf "%s|%s|%s|%d|%d|P:%s|C:%s|FP:%s|FC:%s|TK:%s%s|A:%s\n" id form hex a b
-          (res_p start p) (res_c start c) fps fcs tk g (res_a ar))
+        Printf.printf "%s|%s|%s|%d|%d|P:%s|C:%s|FP:%s|FC:%s|TK:%s|RP:%s%s|A:%s\n" id form hex a b
+          (res_p start p) (res_c start c) fps fcs tk rp g (res_a ar))
     (List.rev !shapes)
 
 let run_stack (ops : sexp list) =
